@@ -342,17 +342,27 @@ theorem growKids_spec (new : Shape) (kids : Kids) (bs : Shape) (dv : Option Nat)
 
 
 
+theorem restoreOnErr_snd (o : M) (r : M × Out) : (restoreOnErr o r).2 = r.2 := by
+  unfold restoreOnErr; cases h : r.2 <;> simp [h]
+
+theorem restoreOnErr_ok (o : M) (r : M × Out) (h : r.2 = .ok) : restoreOnErr o r = r := by
+  unfold restoreOnErr; simp [h]
+
+theorem restoreOnErr_err (o : M) (r : M × Out) (e : Err) (h : r.2 = .err e) : restoreOnErr o r = (o, .err e) := by
+  unfold restoreOnErr; simp [h]
+
 /-- `td.batch_size = new`: what the call delivers on a coherent node -/
 theorem setBatchM_spec (new bs : Shape) (dv : Option Nat) (ns : Option DimNames) (kids : Kids)
     (hc : Coherent (.node bs dv ns kids)) :
     let r := setBatchM new (.node bs dv ns kids)
     (r.2 = .ok ∨ r.2 = .err .runtime ∨ r.2 = .err .value) ∧
-    (r.2 = .err .runtime → r.1 = .node bs dv ns kids) ∧
+    (r.2 ≠ .ok → r.1 = .node bs dv ns kids) ∧
     (r.2 = .ok → Coherent r.1 ∧ r.1.shape = new ∧ ∀ d, r.1.onDev d = (dv == some d)) ∧
-    (r.2 ≠ .err .value → Coherent r.1) := by
+    Coherent r.1 := by
   intro r
   by_cases hchk : checkNewBs new kids = true
-  · have hr : r = finishResize new bs dv ns (growKids new kids) := by simp [r, setBatchM, hchk]
+  · have hr : r = restoreOnErr (.node bs dv ns kids) (finishResize new bs dv ns (growKids new kids)) := by
+      simp [r, setBatchM, hchk]
     have hg := growKids_spec new kids bs dv hc.kid_fits hc.kid_coh hchk
     cases hgk : growKids new kids with
     | mk kids' o =>
@@ -361,19 +371,20 @@ theorem setBatchM_spec (new bs : Shape) (dv : Option Nat) (ns : Option DimNames)
       | err e =>
         have he : e = .value := by rcases hg.1 with h | h <;> simp at h; exact h
         subst he
-        have : r = (.node bs dv ns kids', .err .value) := by rw [hr]; simp [finishResize]
-        rw [this]; simp
+        have : r = (.node bs dv ns kids, .err .value) := by
+          rw [hr]; exact restoreOnErr_err _ _ _ (by simp [finishResize])
+        rw [this]; simp [hc]
       | ok =>
         have hG := hg.2 rfl
         have hspec := finishResize_spec new bs dv ns kids' hG.1 hG.2
         simp only at hspec
-        rw [← hr] at hspec
         obtain ⟨ho, hco, hsh, hdv⟩ := hspec
-        refine ⟨?_, ?_, fun _ => ⟨hco, hsh, hdv⟩, fun _ => hco⟩
-        · rcases ho with h | h
-          · exact Or.inl h
-          · exact Or.inr (Or.inr h)
-        · intro h; rcases ho with h' | h' <;> rw [h'] at h <;> simp at h
+        rcases ho with ho | ho
+        · have : r = finishResize new bs dv ns (kids', .ok) := by rw [hr]; exact restoreOnErr_ok _ _ ho
+          rw [this]
+          exact ⟨Or.inl ho, fun h => absurd ho h, fun _ => ⟨hco, hsh, hdv⟩, hco⟩
+        · have : r = (.node bs dv ns kids, .err .value) := by rw [hr]; exact restoreOnErr_err _ _ _ ho
+          rw [this]; simp [hc]
   · have hr : r = (.node bs dv ns kids, .err .runtime) := by simp [r, setBatchM, hchk]
     rw [hr]; simp [hc]
 
@@ -654,10 +665,9 @@ def handleOk (new : Shape) : Path → M → Prop
 
 theorem setBatch_leaf (new : Shape) (s : Shape) (d : Nat) : setBatchM new (.leaf s d) = (.leaf s d, .err .attr) := rfl
 
-/-- `batch_size` assigned through a nested handle (in scope): the tree stays coherent unless the call fails
-with the names conflict (ValueError) -/
+/-- `batch_size` assigned through a nested handle (in scope): the tree stays coherent, whatever the outcome -/
 theorem atPath_setBatch_nested (new : Shape) (h : Path) (hne : h ≠ []) (t : M) (hc : Coherent t)
-    (hok : handleOk new h t) (hv : (atPath (setBatchM new) h t).2 ≠ .err .value) :
+    (hok : handleOk new h t) :
     KeepsMeta t (atPath (setBatchM new) h t).1 := by
   induction h generalizing t with
   | nil => exact absurd rfl hne
@@ -665,18 +675,18 @@ theorem atPath_setBatch_nested (new : Shape) (h : Path) (hne : h ≠ []) (t : M)
     cases t with
     | leaf s d => exact KeepsMeta.refl hc
     | node bs dv ns kids =>
-      simp only [atPath] at hv ⊢
+      simp only [atPath]
       cases hk : kget k kids with
-      | none => simp [hk]; exact KeepsMeta.refl hc
+      | none => simp; exact KeepsMeta.refl hc
       | some c =>
-        simp only [hk] at hv ⊢
+        simp only []
         have hm := kget_mem hk
         have hcc := hc.kid_coh k c hm
         have hcf := hc.kid_fits k c hm
         cases rest with
         | nil =>
           -- the addressed tensordict itself
-          simp only [atPath] at hv ⊢
+          simp only [atPath]
           cases c with
           | leaf s d => simp [setBatch_leaf]; exact keepsMeta_node (hc.kset k hcf hcc)
           | node cbs cdv cns ckids =>
@@ -685,26 +695,21 @@ theorem atPath_setBatch_nested (new : Shape) (h : Path) (hne : h ≠ []) (t : M)
             have hok' : takeEq new bs = true := by simpa [handleOk] using hok
             cases hr : setBatchM new (.node cbs cdv cns ckids) with
             | mk c' o =>
-              rw [hr] at hsp hv
-              simp only at hv
+              rw [hr] at hsp
               cases o with
               | ok =>
                 obtain ⟨hco, hsh, hdv⟩ := hsp.2.2.1 rfl
                 refine keepsMeta_node (hc.kset k ⟨by rw [hsh]; exact hok', fun d hd => ?_⟩ hco)
                 rw [hdv]; have := hcf.2 d hd; simpa [M.onDev] using this
               | err e =>
-                have hco := hsp.2.2.2 (by simpa using hv)
-                rcases hsp.1 with h1 | h1 | h1
-                · simp at h1
-                · have := hsp.2.1 h1; simp at this; subst this
-                  exact keepsMeta_node (hc.kset k hcf hcc)
-                · simp at h1; subst h1; simp at hv
+                have := hsp.2.1 (by simp)
+                simp only at this; subst this
+                exact keepsMeta_node (hc.kset k hcf hcc)
         | cons k2 rest2 =>
           have hok' : handleOk new (k2 :: rest2) c := by simpa [handleOk, hk] using hok
           cases hr : atPath (setBatchM new) (k2 :: rest2) c with
           | mk c' o =>
-            rw [hr] at hv
-            have ih' := ih (by simp) c hcc hok' (by rw [hr]; simpa using hv)
+            have ih' := ih (by simp) c hcc hok'
             rw [hr] at ih'
             exact keepsMeta_node (hc.kset k (ih'.fits hcf) ih'.2.2)
 
@@ -712,8 +717,9 @@ theorem atPath_setBatch_nested (new : Shape) (h : Path) (hne : h ≠ []) (t : M)
 
 def witT : M := .node [2] none none [("c", .node [2] none (some [some "x"]) [("g", .node [2, 2] none (some [none, some "x"]) [])])]
 
-theorem wit_eval : step witT (.setBatch [] [3]) = (.node [2] none none [("c", .node [3] none none [("g", .node [3, 2] none (some [none, some "x"]) [])])], .err .value) := by
-  simp [witT, step, atPath, setBatchM, checkNewBs, growKids, finishResize, childNew, takeEq, isEmptyK, setNamesM, namesCheck, countNone, renameSub, namesAfterResize, eraseSub, distinct]
+/-- formerly the counter-example (known finding C01-batch-size-names-conflict): the refused assignment now leaves the tree as it was -/
+theorem wit_eval : step witT (.setBatch [] [3]) = (witT, .err .value) := by
+  simp [witT, step, atPath, setBatchM, restoreOnErr, checkNewBs, growKids, finishResize, childNew, takeEq, isEmptyK, setNamesM, namesCheck, countNone, renameSub, namesAfterResize, distinct]
 
 theorem not_coherent_of_child (t c : M) (k : String) (h : getPath [k] t = some c) (hs : takeEq c.shape t.shape = false) :
     ¬ Coherent t := by
@@ -1235,7 +1241,8 @@ theorem setBatchM_weak (new bs : Shape) (dv : Option Nat) (ns : Option DimNames)
     (r.2 = .ok ∨ r.2 = .err .value) ∧
     (r.2 = .ok → Coherent r.1 ∧ r.1.shape = new ∧ ∀ d, r.1.onDev d = (dv == some d)) := by
   intro r
-  have hr : r = finishResize new bs dv ns (growKids new kids) := by simp [r, setBatchM, hchk]
+  have hr : r = restoreOnErr (.node bs dv ns kids) (finishResize new bs dv ns (growKids new kids)) := by
+    simp [r, setBatchM, hchk]
   have hg := growKids_spec new kids [] dv (fun k c hm => ⟨takeEq_nil _, hd k c hm⟩) hc hchk
   cases hgk : growKids new kids with
   | mk kids' o =>
@@ -1244,15 +1251,20 @@ theorem setBatchM_weak (new bs : Shape) (dv : Option Nat) (ns : Option DimNames)
     | err e =>
       have he : e = .value := by rcases hg.1 with h | h <;> simp at h; exact h
       subst he
-      have : r = (.node bs dv ns kids', .err .value) := by rw [hr]; simp [finishResize]
+      have : r = (.node bs dv ns kids, .err .value) := by
+        rw [hr]; exact restoreOnErr_err _ _ _ (by simp [finishResize])
       rw [this]; simp
     | ok =>
       have hG := hg.2 rfl
       have hspec := finishResize_spec new bs dv ns kids' hG.1 hG.2
       simp only at hspec
-      rw [← hr] at hspec
       obtain ⟨ho, hco, hsh, hdv⟩ := hspec
-      exact ⟨ho, fun _ => ⟨hco, hsh, hdv⟩⟩
+      rcases ho with ho | ho
+      · have : r = finishResize new bs dv ns (kids', .ok) := by rw [hr]; exact restoreOnErr_ok _ _ ho
+        rw [this]
+        exact ⟨Or.inl ho, fun _ => ⟨hco, hsh, hdv⟩⟩
+      · have : r = (.node bs dv ns kids, .err .value) := by rw [hr]; exact restoreOnErr_err _ _ _ ho
+        rw [this]; simp
 
 theorem autoFinish_spec (bd : Option Nat) (bs : Shape) (dv : Option Nat) (ns : Option DimNames) (kids : Kids)
     (hn : ∀ l, ns = some l → l.length = bs.length)
@@ -1354,12 +1366,13 @@ theorem autoKids_spec (bd : Option Nat) (kids : Kids) (dv : Option Nat)
     · exact ihr.2 ho k' c'' hm
 
 /-- `auto_batch_size_(batch_dims)` on a coherent tensordict: it answers ok or ValueError (a dim-name conflict while the
-names follow a new batch size) — the batch size it computes is never refused as incompatible with an entry — and when
-it returns normally the whole tree is coherent again. -/
+names follow a new batch size) — the batch size it computes is never refused as incompatible with an entry; when it
+returns normally the whole tree is coherent again, when it raises nothing has changed. -/
 theorem autoBatchM_spec (bd : Option Nat) (bs : Shape) (dv : Option Nat) (ns : Option DimNames) (kids : Kids)
     (hc : Coherent (.node bs dv ns kids)) :
     let r := autoBatchM bd (.node bs dv ns kids)
-    (r.2 = .ok ∨ r.2 = .err .value) ∧ (r.2 = .ok → Coherent r.1 ∧ ∀ d, r.1.onDev d = (dv == some d)) := by
+    (r.2 = .ok ∨ r.2 = .err .value) ∧ (r.2 = .ok → Coherent r.1 ∧ ∀ d, r.1.onDev d = (dv == some d)) ∧
+    (r.2 ≠ .ok → r.1 = .node bs dv ns kids) ∧ Coherent r.1 := by
   intro r
   have hk := autoKids_spec bd kids dv (fun k c h => (hc.kid_fits k c h).2) hc.kid_coh
   cases hak : autoKids bd kids with
@@ -1367,16 +1380,232 @@ theorem autoBatchM_spec (bd : Option Nat) (bs : Shape) (dv : Option Nat) (ns : O
     rw [hak] at hk
     cases o with
     | err e =>
-      have : r = (.node bs dv ns kids', .err e) := by simp [r, autoBatchM, hak]
-      rw [this]
-      rcases hk.1 with h | h
-      · simp at h
-      · simp at h; subst h; simp
+      have he : e = .value := by rcases hk.1 with h | h <;> simp at h; exact h
+      subst he
+      have : r = (.node bs dv ns kids, .err .value) := by
+        simp only [r, autoBatchM, hak]; exact restoreOnErr_err _ _ _ rfl
+      rw [this]; simp [hc]
     | ok =>
       have hsub := hk.2 rfl
       have hfin := autoFinish_spec bd bs dv ns kids' hc.names_len (fun k c h => (hsub k c h).1) (fun k c h => (hsub k c h).2)
-      have : r = autoFinish bd (.node bs dv ns kids') := by simp [r, autoBatchM, hak]
-      rw [this]; exact hfin
+      simp only at hfin
+      rcases hfin.1 with ho | ho
+      · have : r = autoFinish bd (.node bs dv ns kids') := by
+          simp only [r, autoBatchM, hak]; exact restoreOnErr_ok _ _ ho
+        rw [this]
+        exact ⟨Or.inl ho, hfin.2, fun h => absurd ho h, (hfin.2 ho).1⟩
+      · have : r = (.node bs dv ns kids, .err .value) := by
+          simp only [r, autoBatchM, hak]; exact restoreOnErr_err _ _ _ ho
+        rw [this]; simp [hc]
+
+/-! ### restructuring in place -/
+
+theorem removeIfPresent_node (p : Path) (bs : Shape) (dv : Option Nat) (ns : Option DimNames) (kids : Kids)
+    (hc : Coherent (.node bs dv ns kids)) : Coherent (.node bs dv ns (removeIfPresent p kids)) := by
+  fun_induction removeIfPresent p kids generalizing bs dv ns
+  · exact hc
+  · exact hc.kdel _
+  · rename_i k k2 rest kids cbs cdv cns sub hk ih
+    have hm := kget_mem hk
+    have hcc := ih cbs cdv cns (hc.kid_coh k _ hm)
+    have hf := hc.kid_fits k _ hm
+    exact hc.kset k ⟨hf.1, hf.2⟩ hcc
+  · exact hc
+
+theorem excludeM_spec (keys : List Path) (t : M) (hc : Coherent t) : KeepsMeta t (excludeM keys t).1 := by
+  cases t with
+  | leaf s d => exact KeepsMeta.refl hc
+  | node bs dv ns kids =>
+    simp only [excludeM]
+    refine keepsMeta_node ?_
+    induction keys generalizing kids with
+    | nil => exact hc
+    | cons p r ih => simp only [List.foldl_cons]; exact ih _ (removeIfPresent_node p bs dv ns kids hc)
+
+/-- every leaf below a coherent node fits that node: leading dims by transitivity of the prefix relation along
+the nested batch sizes, device because a device set on a node is shared by everything below -/
+theorem leavesM_fit (kids : Kids) (pre : Path) (bs : Shape) (dv : Option Nat)
+    (hf : ∀ k c, (k, c) ∈ kids → fits bs dv c) (hc : ∀ k c, (k, c) ∈ kids → Coherent c) :
+    ∀ p v, (p, v) ∈ leavesM kids pre → fits bs dv v ∧ Coherent v := by
+  fun_induction leavesM kids pre generalizing bs dv
+  · simp
+  · rename_i k s d r pre ih
+    intro p v hm
+    simp only [List.mem_cons, Prod.mk.injEq] at hm
+    rcases hm with ⟨_, rfl⟩ | hm
+    · exact ⟨hf k _ (by simp), Coherent.leaf _ _⟩
+    · exact ih bs dv (fun k c h => hf k c (List.mem_cons_of_mem _ h)) (fun k c h => hc k c (List.mem_cons_of_mem _ h)) p v hm
+  · rename_i k cbs cdv cns sub r pre ih2 ih1
+    intro p v hm
+    rcases List.mem_append.mp hm with hm | hm
+    · have hcc := hc k (.node cbs cdv cns sub) (by simp)
+      have hfc := hf k (.node cbs cdv cns sub) (by simp)
+      obtain ⟨hfv, hcv⟩ := ih2 cbs cdv hcc.kid_fits hcc.kid_coh p v hm
+      refine ⟨⟨takeEq_trans hfv.1 hfc.1, fun d hd => ?_⟩, hcv⟩
+      have : cdv = some d := by have := hfc.2 d hd; simpa [M.onDev] using this
+      exact hfv.2 d this
+    · exact ih1 bs dv (fun k c h => hf k c (List.mem_cons_of_mem _ h)) (fun k c h => hc k c (List.mem_cons_of_mem _ h)) p v hm
+
+theorem mem_foldl_kset (l : List (String × M)) (acc : Kids) (k : String) (c : M)
+    (h : (k, c) ∈ l.foldl (fun d kv => kset kv.1 kv.2 d) acc) : (k, c) ∈ acc ∨ (k, c) ∈ l := by
+  induction l generalizing acc with
+  | nil => exact Or.inl h
+  | cons a r ih =>
+    simp only [List.foldl_cons] at h
+    rcases ih _ h with h' | h'
+    · rcases mem_kset h' with h'' | ⟨rfl, rfl⟩
+      · exact Or.inl h''
+      · exact Or.inr (by simp)
+    · exact Or.inr (List.mem_cons_of_mem _ h')
+
+/-- `flatten_keys(sep, inplace=True)`: the leaves are written at the root with `validated=True` (no check) — they fit -/
+theorem flattenM_spec (sep : String) (t : M) (hc : Coherent t) : KeepsMeta t (flattenM sep t).1 := by
+  cases t with
+  | leaf s d => exact KeepsMeta.refl hc
+  | node bs dv ns kids =>
+    simp only [flattenM]
+    split
+    · exact KeepsMeta.refl hc
+    · refine keepsMeta_node (Coherent.node _ _ _ _ hc.names_len ?_ ?_)
+      all_goals
+        intro k c hm
+        rcases mem_foldl_kset _ _ k c hm with h | h
+        · simp at h
+        · have hv := (List.of_mem_zip h).2
+          obtain ⟨pv, hpv, rfl⟩ := List.mem_map.mp hv
+          have := leavesM_fit kids [] bs dv hc.kid_fits hc.kid_coh pv.1 pv.2 hpv
+          first | exact this.1 | exact this.2
+
+theorem renameSafe_spec (old new : Path) (t : M) (hc : Coherent t) : KeepsMeta t (renameSafe old new t).1 := by
+  simp only [renameSafe]
+  split
+  · exact KeepsMeta.refl hc
+  · exact renamePath_spec old new t hc
+
+theorem unflattenLoopM_spec (sep : Char) (ks : List String) (t : M) (hc : Coherent t) :
+    KeepsMeta t (unflattenLoopM sep ks t).1 := by
+  induction ks generalizing t with
+  | nil => exact KeepsMeta.refl hc
+  | cons k r ih =>
+    simp only [unflattenLoopM]
+    split
+    · have h1 := renameSafe_spec [k] (C04.splitKey sep k) t hc
+      cases hr : renameSafe [k] (C04.splitKey sep k) t with
+      | mk t' o =>
+        rw [hr] at h1
+        cases o with
+        | err e => exact h1
+        | ok => exact h1.trans (ih t' h1.2.2)
+    · exact ih t hc
+
+theorem unflattenM_spec (sep : Char) (t : M) (hc : Coherent t) : KeepsMeta t (unflattenM sep t).1 := by
+  cases t with
+  | leaf s d => exact KeepsMeta.refl hc
+  | node bs dv ns kids => exact unflattenLoopM_spec sep _ _ hc
+
+
+
+/-- an operation that may change the batch size of the node it is applied to, issued through a nested handle: when
+the resulting batch size still extends the batch size of the node that holds the addressed tensordict (`handleOk`)
+and the device is kept, the whole tree stays coherent -/
+theorem atPath_resize (f : M → M × Out)
+    (hf : ∀ n, Coherent n → Coherent (f n).1 ∧ ∀ d, (f n).1.onDev d = n.onDev d)
+    (h : Path) (hne : h ≠ []) (t : M) (hc : Coherent t)
+    (hok : ∀ n, getPath h t = some n → handleOk (f n).1.shape h t) :
+    KeepsMeta t (atPath f h t).1 := by
+  induction h generalizing t with
+  | nil => exact absurd rfl hne
+  | cons k rest ih =>
+    cases t with
+    | leaf s d => exact KeepsMeta.refl hc
+    | node bs dv ns kids =>
+      simp only [atPath]
+      cases hk : kget k kids with
+      | none => simp; exact KeepsMeta.refl hc
+      | some c =>
+        simp only []
+        have hm := kget_mem hk
+        have hcc := hc.kid_coh k c hm
+        have hcf := hc.kid_fits k c hm
+        cases rest with
+        | nil =>
+          simp only [atPath]
+          have hfc := hf c hcc
+          have hok' := hok c (by simp [getPath, hk])
+          have hte : takeEq (f c).1.shape bs = true := by simpa [handleOk] using hok'
+          refine keepsMeta_node (hc.kset k ⟨hte, fun d hd => ?_⟩ hfc.1)
+          rw [hfc.2]; exact hcf.2 d hd
+        | cons k2 rest2 =>
+          have hok' : ∀ n, getPath (k2 :: rest2) c = some n → handleOk (f n).1.shape (k2 :: rest2) c := by
+            intro n hn
+            have := hok n (by simp only [getPath, hk]; exact hn)
+            simpa [handleOk, hk] using this
+          cases hr : atPath f (k2 :: rest2) c with
+          | mk c' o =>
+            have ih' := ih (by simp) c hcc hok'
+            rw [hr] at ih'
+            exact keepsMeta_node (hc.kset k (ih'.fits hcf) ih'.2.2)
+
+theorem autoBatchM_keeps (bd : Option Nat) (n : M) (hc : Coherent n) :
+    Coherent (autoBatchM bd n).1 ∧ ∀ d, (autoBatchM bd n).1.onDev d = n.onDev d := by
+  cases n with
+  | leaf s d => exact ⟨hc, fun _ => rfl⟩
+  | node bs dv ns kids =>
+    have h := autoBatchM_spec bd bs dv ns kids hc
+    simp only at h
+    refine ⟨h.2.2.2, fun d => ?_⟩
+    cases ho : (autoBatchM bd (.node bs dv ns kids)).2 with
+    | ok => rw [(h.2.1 ho).2]; rfl
+    | err e => rw [h.2.2.1 (by rw [ho]; simp)]
+
+
+
+/-- `update(tensordict)`: wherever it stops the receiver stays coherent (the payload's entries are coherent values) -/
+theorem updateTdK_spec (items : Kids) (t : M) (hc : Coherent t) (hv : ∀ k c, (k, c) ∈ items → Coherent c) :
+    KeepsMeta t (updateTdK items t).1 := by
+  fun_induction updateTdK items t
+  · exact KeepsMeta.refl hc
+  · exact KeepsMeta.refl hc
+  · rename_i k s d rest bs dv ns kids t' e hs
+    have := setPath_false_spec [k] (.leaf s d) _ hc (Coherent.leaf _ _)
+    rw [hs] at this; exact this
+  · rename_i k s d rest bs dv ns kids t' hs ih
+    have h1 := setPath_false_spec [k] (.leaf s d) _ hc (Coherent.leaf _ _)
+    rw [hs] at h1
+    exact h1.trans (ih h1.2.2 (fun k c h => hv k c (List.mem_cons_of_mem _ h)))
+  · exact KeepsMeta.refl hc
+  · rename_i k vbs vdv vns vsub rest bs dv ns kids cbs cdv cns csub hk hloose c e hu ih
+    have hm := kget_mem hk
+    have hvv := hv k (.node vbs vdv vns vsub) (by simp)
+    have hin := ih (hc.kid_coh k _ hm) hvv.kid_coh
+    rw [hu] at hin
+    exact keepsMeta_node (hc.kset k (hin.fits (hc.kid_fits k _ hm)) hin.2.2)
+  · rename_i k vbs vdv vns vsub rest bs dv ns kids cbs cdv cns csub hk hloose c hu ih2 ih1
+    have hm := kget_mem hk
+    have hvv := hv k (.node vbs vdv vns vsub) (by simp)
+    have hin := ih2 (hc.kid_coh k _ hm) hvv.kid_coh
+    rw [hu] at hin
+    have hnode := keepsMeta_node (ns := ns) (kids := kids) (hc.kset k (hin.fits (hc.kid_fits k _ hm)) hin.2.2)
+    exact hnode.trans (ih1 hnode.2.2 (fun k c h => hv k c (List.mem_cons_of_mem _ h)))
+  · rename_i k vbs vdv vns vsub rest bs dv ns kids t' e hs hx
+    have := setPath_false_spec [k] (.node vbs vdv vns vsub) _ hc (hv k _ (by simp))
+    rw [hs] at this; exact this
+  · rename_i k vbs vdv vns vsub rest bs dv ns kids t' hs hx ih
+    have h1 := setPath_false_spec [k] (.node vbs vdv vns vsub) _ hc (hv k _ (by simp))
+    rw [hs] at h1
+    exact h1.trans (ih h1.2.2 (fun k c h => hv k c (List.mem_cons_of_mem _ h)))
+
+theorem updateTdM_spec (m t : M) (hc : Coherent t) (hm : Coherent m) : KeepsMeta t (updateTdM m t).1 := by
+  cases t with
+  | leaf s d => exact KeepsMeta.refl hc
+  | node bs dv ns kids =>
+    cases m with
+    | leaf s d => exact KeepsMeta.refl hc
+    | node vbs vdv vns vsub =>
+      simp only [updateTdM]
+      split
+      · exact KeepsMeta.refl hc
+      · exact updateTdK_spec vsub _ hc hm.kid_coh
 
 
 end TdVerif.C01
